@@ -129,7 +129,9 @@ type privReader struct {
 }
 
 var privReaders = []privReader{
-	{"FromXML", func(doc, _ string, demo bool) (*gabikeys.PrivateKey, error) { return gabikeys.NewPrivateKeyFromXML(doc, demo) }},
+	{"FromXML", func(doc, _ string, demo bool) (*gabikeys.PrivateKey, error) {
+		return gabikeys.NewPrivateKeyFromXML(doc, demo)
+	}},
 	{"FromFile", func(doc, dir string, demo bool) (*gabikeys.PrivateKey, error) {
 		p := filepath.Join(dir, "sk.xml")
 		if err := os.WriteFile(p, []byte(doc), 0o600); err != nil {
@@ -195,7 +197,9 @@ func TestVF_C18_KeyRoundTrip(t *testing.T) {
 			}
 		}
 	}
-	rec.Sample(func() any { return map[string]any{"kind": "key round trips", "bases": "0..20", "revocation": "with/without", "readers": "FromXML, FromBytes, FromFile"} })
+	rec.Sample(func() any {
+		return map[string]any{"kind": "key round trips", "bases": "0..20", "revocation": "with/without", "readers": "FromXML, FromBytes, FromFile"}
+	})
 }
 
 type docCorruption struct {
@@ -424,7 +428,9 @@ func TestVF_C18_MalformedKeys(t *testing.T) {
 			}
 		}
 	}
-	rec.Sample(func() any { return map[string]any{"kind": "malformed key documents", "example": "public key with <Z> deleted, read by FromXML/FromBytes/FromFile"} })
+	rec.Sample(func() any {
+		return map[string]any{"kind": "malformed key documents", "example": "public key with <Z> deleted, read by FromXML/FromBytes/FromFile"}
+	})
 	rec.SetExhaustive(true)
 }
 
